@@ -48,6 +48,18 @@ check('C03', 'E1', 'exploration',
       'normal form of DESIGN.md (\\relax-terminated literals).',
       'DESIGN.md 2/C03')
 
-_PENDING = {'C02': 'check not built yet in this round (planned: bounded exhaustive exploration, see DESIGN.md section 2)', 'C04': 'check not built yet in this round (planned: bounded exhaustive exploration, see DESIGN.md section 2)', 'C05': 'check not built yet in this round (planned: bounded exhaustive exploration, see DESIGN.md section 2)', 'C06': 'check not built yet in this round (planned: bounded exhaustive exploration, see DESIGN.md section 2)', 'C07': 'check not built yet in this round (planned: bounded exhaustive exploration, see DESIGN.md section 2)', 'C08': 'check not built yet in this round (planned: bounded exhaustive exploration, see DESIGN.md section 2)', 'C09': 'check not built yet in this round (planned: bounded exhaustive exploration, see DESIGN.md section 2)', 'C10': 'check not built yet in this round (planned: bounded exhaustive exploration, see DESIGN.md section 2)', 'C11': 'check not built yet in this round (planned: bounded exhaustive exploration, see DESIGN.md section 2)', 'C12': 'check not built yet in this round (planned: bounded exhaustive exploration, see DESIGN.md section 2)', 'C13': 'check not built yet in this round (planned: bounded exhaustive exploration, see DESIGN.md section 2)', 'C14': 'check not built yet in this round (planned: bounded exhaustive exploration, see DESIGN.md section 2)', 'C15': 'check not built yet in this round (planned: bounded exhaustive exploration, see DESIGN.md section 2)', 'C16': 'check not built yet in this round (planned: bounded exhaustive exploration, see DESIGN.md section 2)', 'C17': 'check not built yet in this round (planned: bounded exhaustive exploration, see DESIGN.md section 2)', 'C18': 'check not built yet in this round (planned: bounded exhaustive exploration, see DESIGN.md section 2)', 'C19': 'check not built yet in this round (planned: bounded exhaustive exploration, see DESIGN.md section 2)', 'C20': 'check not built yet in this round (planned: bounded exhaustive exploration, see DESIGN.md section 2)'}
+check('C02', 'E1', 'exploration',
+      'bounded exhaustive enumeration of macro programs (token-list ASTs) against a reference TeX macro expander',
+      'Every program of the families (old definition; wrapper(new definition; uses); uses after) over 7 definers x 11 '
+      'parameter texts x 6 body templates x all combinations of actual-argument shapes x direct/\\csname call x 3 (quick) / 5 '
+      '(thorough) wrappers, two- and three-level call chains and \\let snapshots taken before/after a redefinition is run '
+      'through plasTeX and through an independent token-list implementation of TeXbook ch.20; the visible text must agree. '
+      'Scoping of \\def/\\gdef across the wrapper is part of the observation (use after the wrapper).',
+      'Trusted: vp/refs/tex_macro.py (about 300 lines, no parsing: the generator builds token lists) and the normal form '
+      '(no delimiter hidden in braces, no spaces, \\newcommand at top level only). One open finding (\\let to a character in '
+      'pre-tokenized text).',
+      'DESIGN.md 2/C02')
+
+_PENDING = {'C04': 'check not built yet in this round (planned: bounded exhaustive exploration, see DESIGN.md section 2)', 'C05': 'check not built yet in this round (planned: bounded exhaustive exploration, see DESIGN.md section 2)', 'C06': 'check not built yet in this round (planned: bounded exhaustive exploration, see DESIGN.md section 2)', 'C07': 'check not built yet in this round (planned: bounded exhaustive exploration, see DESIGN.md section 2)', 'C08': 'check not built yet in this round (planned: bounded exhaustive exploration, see DESIGN.md section 2)', 'C09': 'check not built yet in this round (planned: bounded exhaustive exploration, see DESIGN.md section 2)', 'C10': 'check not built yet in this round (planned: bounded exhaustive exploration, see DESIGN.md section 2)', 'C11': 'check not built yet in this round (planned: bounded exhaustive exploration, see DESIGN.md section 2)', 'C12': 'check not built yet in this round (planned: bounded exhaustive exploration, see DESIGN.md section 2)', 'C13': 'check not built yet in this round (planned: bounded exhaustive exploration, see DESIGN.md section 2)', 'C14': 'check not built yet in this round (planned: bounded exhaustive exploration, see DESIGN.md section 2)', 'C15': 'check not built yet in this round (planned: bounded exhaustive exploration, see DESIGN.md section 2)', 'C16': 'check not built yet in this round (planned: bounded exhaustive exploration, see DESIGN.md section 2)', 'C17': 'check not built yet in this round (planned: bounded exhaustive exploration, see DESIGN.md section 2)', 'C18': 'check not built yet in this round (planned: bounded exhaustive exploration, see DESIGN.md section 2)', 'C19': 'check not built yet in this round (planned: bounded exhaustive exploration, see DESIGN.md section 2)', 'C20': 'check not built yet in this round (planned: bounded exhaustive exploration, see DESIGN.md section 2)'}
 for _p, _why in _PENDING.items():
     NOT_APPLICABLE.append({'property_id': _p, 'reason': _why})
